@@ -118,4 +118,16 @@ CHECKS = {
             R("TestC06_Range", 3200, 80000, shards=16),
         ],
     ),
+    "C05": dict(
+        level="exploration",
+        rule=("rapid state machine (growth-only) over dependency graphs: 1-2 referenced integrations (transaction- or log-indexing, optionally narrowed by a plain filter) and 1-2 dependants whose filter_ref (contains / !contains, on event inputs or block fields, one or two references, and/or) points at them; dependants may reference dependants (chains); "
+              "start/stop per pair; batch 1..6 x concurrency 1..3; 4..20 actions grow/step with the scheduler choosing which pair runs (referenced integrations may not have started). "
+              "Oracle: whenever a dependant commits position n, every referenced integration's newest position for the same source is >= n in that committed state and none of them is without a position; at quiescence the dependant sits at min(head, stop, referenced positions) and its rows lie between the projection with lookups against the referenced rows of blocks <= n (guaranteed) and against the whole referenced table (possible). "
+              "non-trivial = a dependant was stepped while a referenced integration was strictly behind the head."),
+        assumptions=["fakepg/sim/model as for C01", "one reference operator per dependant so that acceptance is monotone in the referenced table contents"],
+        units=[
+            R("TestC05_Dependencies", 2400, 60000, shards=16),
+            R("TestC05_DependenciesReorg", 1600, 40000, shards=16),
+        ],
+    ),
 }
